@@ -98,6 +98,9 @@ def rule_xlate(ctx):
                 return codata
             if n == "compile_subst" and ck.startswith("fun2core::"):
                 return Adt(CORE + "arguments::Arguments", "Arguments", {"entries": Vec([Adt("XLATE", "args", {"of": args[0]})])})
+            if n in ("subst_covar", "subst_var", "subst_sim") and tr.endswith("traits::substitution::Subst"):
+                # a substitution applied to a translated statement: kept as a marker (the scheme of the language has none)
+                return Adt("XLATE", "substituted", {"in": args[0], "by": Vec([I.deref(a) for a in args[1:]])})
             if n == "get_type":
                 return some(Sym("type_of(%r)" % (I.deref(args[0]),)))
             return NotImplemented
